@@ -42,9 +42,9 @@ Definition fetched_as_empty (a : attr) (r : request) : bool :=
   end.
 Definition kf1 (x : ext) (name : bytes) (args : list arg) (r : request) : bool :=
   match lookup name string_specs with
-  | Some (SS a pi t) =>
-    match attr_val (a args) r with
-    | None => fetched_as_empty (a args) r && spec_test x (t args) (arg_str (nth_arg args pi)) []
+  | Some (SS a pi t fs) =>
+    match attr_val (attr_of a args) r with
+    | None => fetched_as_empty (attr_of a args) r && spec_test x (test_of t fs args) (arg_str (nth_arg args pi)) []
     | Some _ => false
     end
   | None => false
